@@ -96,6 +96,9 @@ type Sched struct {
 	// when unfinished tasks exist but none is runnable; it may wake tasks and
 	// return true to continue.
 	OnQuiesce func() bool
+	// OnRealPark is called (scheduler context) when a task inside a channel operation of the code under test is
+	// found parked in the Go runtime for the first time in that operation.
+	OnRealPark func(t *Task)
 	ordHash   uint64
 	// join is the one visible synchronisation of the harness: finished tasks release into it, the main
 	// goroutine acquires from it before reading what tasks wrote. Done() only releases, so it orders no
@@ -110,6 +113,9 @@ type Sched struct {
 	RealOps     int // operations that went through a real blocking region (channel operations of the code under test)
 	RealParked  int // ... of which really parked in the Go runtime at least once
 	TimeSources int // timers / deadlines created by the code under test that the scheduler does not control
+	// TimeStall: the run ended (as Deadlock) with tasks parked in channel operations that only such a timer or deadline
+	// could still complete: no verdict about completion
+	TimeStall bool
 	mon         Task
 }
 
